@@ -22,12 +22,13 @@ for sid in sorted(os.listdir(sd)):
     m = json.load(open(p))
     d = m.get("detected_by") or {}
     sigs = "; ".join(sorted({l.split("::")[0].replace("signature=", "").strip() for l in d.get("lines", []) if "signature=" in l}))[:140]
-    n += 1
-    det += d.get("status") == "DETECTED"
-    first_det += m.get("first_quick_result") == "DETECTED"
+    if not m.get("not_counted"):
+        n += 1
+        det += d.get("status") == "DETECTED"
+        first_det += m.get("first_quick_result") == "DETECTED"
     seed.append(f"| {sid} | {m['needs_to_manifest']} | {m.get('first_quick_result', '-')} | {d.get('status', 'not run')} | {sigs} | {m.get("extension", "")} {m.get("note", "")} |")
 seed.append("")
-seed.append(f"Totals: {n} confirmed seeds; {first_det} caught by the quick tier as first built; {det} caught now.")
+seed.append(f"Totals: {n} confirmed and counted seeds; {first_det} caught by the quick tier of the check as it stood when the seed arrived; {det} caught by the committed quick tier (the rest: see the 'now' column).")
 s = open(os.path.join(ROOT, "DESIGN.md")).read()
 for tag, rows in (("FIXED-TABLE", fixed), ("OPEN-TABLE", opn), ("SEED-TABLE", seed)):
     s = re.sub(rf"<!-- {tag}-BEGIN -->.*?<!-- {tag}-END -->", lambda _: f"<!-- {tag}-BEGIN -->\n" + "\n".join(rows) + f"\n<!-- {tag}-END -->", s, flags=re.S)
